@@ -1,0 +1,32 @@
+//go:build verif
+
+package router
+
+// Verification hooks for property C15 (add-only, compiled only with -tags verif).
+
+import "context"
+
+// VerifC15Costs is the cost table of limiter.go.
+func VerifC15Costs() map[string]int {
+	return map[string]int{
+		"udp_query":     costUDPQuery,
+		"tcp_query":     costTCPQuery,
+		"http_query":    costHTTPQuery,
+		"quic_query":    costQUICQuery,
+		"tcp_conn":      costTCPConn,
+		"tls_conn":      costTLSConn,
+		"quic_conn":     costQuicConn,
+		"from_cache":    costFromCache,
+		"from_upstream": costFromUpstream,
+	}
+}
+
+// VerifC15Start runs a router in-process (the real run(): real listeners on the configured sockets)
+// and returns its close function.
+func VerifC15Start(cfg *Config) (stop func(), err error) {
+	r, err := run(context.Background(), cfg)
+	if err != nil {
+		return nil, err
+	}
+	return func() { r.close(nil) }, nil
+}
